@@ -75,9 +75,9 @@ ASSUMPTIONS = [
 TRUSTED = ["harness/props/c09.py (program synthesis, graph extraction, oracle)", "lean/TypelibModel/Drv/Graph.lean (driver glue)",
            "hand-written model Model/Graph.lean tied to graph.py by this correspondence"]
 
-EDGE_KINDS = ["optional", "pipe", "list", "dict", "vartuple", "direct", "newtype", "alias", "alias_generic", "aliasstr",
+EDGE_KINDS = ["optional", "pipe", "none_first", "pipe_none_first", "list", "dict", "vartuple", "direct", "newtype", "alias", "alias_generic", "aliasstr",
               "aliasstr_generic"]
-CONTAINERS = ["optional", "pipe", "list", "dict", "vartuple", "tuple2", "nested"]
+CONTAINERS = ["optional", "pipe", "none_first", "pipe_none_first", "list", "dict", "vartuple", "tuple2", "nested"]
 FLAVOURS = ["dataclass", "dataclass", "dataclass", "namedtuple", "typeddict", "plain"]
 
 
@@ -95,6 +95,10 @@ def edge_type(kind, j, prog, module):
         return ["union", [target, ["none"]], {"sp": "optional"}]
     if kind == "pipe":
         return ["union", [target, ["none"]], {"sp": "pipe"}]
+    if kind == "none_first":
+        return ["union", [["none"], target], {"sp": "typing"}]
+    if kind == "pipe_none_first":
+        return ["union", [["none"], target], {"sp": "pipe"}]
     if kind == "list":
         return ["coll", "list", target, {"sp": "builtin"}]
     if kind == "dict":
@@ -121,6 +125,10 @@ def container(kind, inner):
         return ["union", [inner, ["none"]], {"sp": "optional"}]
     if kind == "pipe":
         return ["union", [inner, ["none"]], {"sp": "pipe"}]
+    if kind == "none_first":
+        return ["union", [["none"], inner], {"sp": "typing"}]
+    if kind == "pipe_none_first":
+        return ["union", [["none"], inner], {"sp": "pipe"}]
     if kind == "list":
         return ["coll", "list", inner, {"sp": "builtin"}]
     if kind == "dict":
